@@ -256,6 +256,43 @@ func c13Resolve(c *runCtx) {
 		}
 		emitQ("comment", bugIds, qs, outs, fails)
 		c.nontrivial(fmt.Sprintf("pop-comment|%v", bugs))
+		// everything is committed before the cache is closed (staged operations do not survive a close)
+		for _, id := range bugIds {
+			if b, err := rc.Bugs().Resolve(entity.Id(id)); err == nil {
+				if err := b.CommitAsNeeded(); err != nil {
+					panic(err)
+				}
+			}
+		}
+		// --- the same after a close/reopen with only some of the entities loaded in memory
+		// (the answer must not depend on what happens to be loaded)
+		if err := rc.Close(); err != nil {
+			panic(err)
+		}
+		rc = mustCache(repo)
+		for _, id := range bugIds {
+			if c.rng.chance(1, 3) {
+				if _, err := rc.Bugs().Resolve(entity.Id(id)); err != nil {
+					panic(err)
+				}
+				c.count("partially-loaded")
+			}
+		}
+		qs, outs, fails = nil, nil, nil
+		for _, id := range bugIds {
+			for _, n := range []int{0, 1, 2, 3, 64} {
+				pre := id[:n]
+				qs = append(qs, q{"id", pre})
+				outs = append(outs, resolveOne(bugIds, pre, func(p string) (string, error) {
+					b, err := rc.Bugs().ResolvePrefix(p)
+					if err != nil {
+						return "", err
+					}
+					return string(b.Id()), nil
+				}))
+			}
+		}
+		emitQ("bug", bugIds, qs, outs, fails)
 		rc.Close()
 	}
 }
